@@ -13,6 +13,8 @@ from . import mirparse, adts, machine, explore
 VERIF = os.path.dirname(os.path.dirname(os.path.abspath(__file__)))
 REPO = os.environ.get('VERIF_REPO', '/repo')
 CACHE = os.path.join(VERIF, '.cache')
+# checks normally run against /repo; VERIF_REPO points them at another checkout (used to try changes without touching /repo)
+RTAG = '' if REPO == '/repo' else '-' + hashlib.sha256(REPO.encode()).hexdigest()[:8]
 ENV = dict(os.environ, CARGO_NET_OFFLINE='true')
 
 
@@ -53,7 +55,7 @@ def dump_mir(log):
 
     Dumps are keyed by a content hash of the sources (and the nightly version), so a
     dump is reused only when the tree it was produced from is byte-identical."""
-    with Lock('mir'):
+    with Lock('mir' + RTAG):
         th = tree_hash()
         nightly = sh('rustc +nightly --version').stdout.strip()
         key = hashlib.sha256((th + nightly).encode()).hexdigest()[:16]
@@ -64,7 +66,7 @@ def dump_mir(log):
             log('mir dump: reuse %s (tree %s)' % (key, th))
             return core, binm, th
         os.makedirs(d, exist_ok=True)
-        tgt = os.path.join(CACHE, 'mir-target')
+        tgt = os.path.join(CACHE, 'mir-target' + RTAG)
         t = time.time()
         sh('cargo clean --offline -p typstyle-core -p typstyle --target-dir %s' % tgt, cwd=REPO)
         flags = '-Zunpretty=mir -C debug-assertions=off -C overflow-checks=on'
@@ -85,10 +87,17 @@ def dump_mir(log):
 
 
 def build_driver(log):
-    with Lock('driver'):
+    with Lock('driver' + RTAG):
         src = os.path.join(VERIF, 'replay')
+        if RTAG:
+            # private copy of the driver crate whose path dependency points at the other checkout
+            dst = os.path.join(CACHE, 'replay-src' + RTAG)
+            os.makedirs(os.path.join(dst, 'src'), exist_ok=True)
+            open(os.path.join(dst, 'Cargo.toml'), 'w').write(open(os.path.join(src, 'Cargo.toml')).read().replace('/repo/crates', REPO + '/crates'))
+            subprocess.run(['cp', os.path.join(src, 'src', 'main.rs'), os.path.join(dst, 'src', 'main.rs')])
+            src = dst
         subprocess.run(['cp', os.path.join(REPO, 'Cargo.lock'), os.path.join(src, 'Cargo.lock')])
-        tgt = os.path.join(CACHE, 'replay-target')
+        tgt = os.path.join(CACHE, 'replay-target' + RTAG)
         t = time.time()
         r = sh('cargo build --offline --target-dir %s' % tgt, cwd=src)
         if r.returncode != 0:
@@ -98,8 +107,8 @@ def build_driver(log):
 
 
 def build_cli(log):
-    with Lock('cli'):
-        tgt = os.path.join(CACHE, 'cli-target')
+    with Lock('cli' + RTAG):
+        tgt = os.path.join(CACHE, 'cli-target' + RTAG)
         t = time.time()
         r = sh('cargo build --offline -p typstyle --bin typstyle --target-dir %s' % tgt, cwd=REPO)
         if r.returncode != 0:
@@ -311,8 +320,10 @@ class Session:
             known = [k for k in json.load(open(kf)) if k.get('property') == self.prop and k.get('status') == 'open']
         known_keys = {k['key']: k for k in known}
         new = []
+        # runs against another checkout (VERIF_REPO) never touch the committed evidence
+        evdir = os.path.join(VERIF, 'evidence') if not RTAG else os.path.join(CACHE, 'evidence' + RTAG)
         os.makedirs(os.path.join(VERIF, 'replays'), exist_ok=True)
-        os.makedirs(os.path.join(VERIF, 'evidence'), exist_ok=True)
+        os.makedirs(evdir, exist_ok=True)
         for v in self.violations:
             if v['key'] in known_keys:
                 print('KNOWN-FINDING: property=%s %s [%s]' % (self.prop, known_keys[v['key']]['what'], v['key']))
@@ -353,7 +364,7 @@ class Session:
             wall_s=round(time.time() - self.t0, 2),
             violations=len(new),
         )
-        json.dump(ev, open(os.path.join(VERIF, 'evidence', '%s.json' % self.prop), 'w'), indent=1, default=str)
+        json.dump(ev, open(os.path.join(evdir, '%s.json' % self.prop), 'w'), indent=1, default=str)
         if self._driver:
             self._driver.close()
         if new:
